@@ -149,11 +149,21 @@ def run(ctx):
         ctx.decide(guarded, 'R-BELIEF', 'D3', asragged, n, 'next-guarded', 'an empty iterable does not leak StopIteration from asraggedarray',
                    detail='unguarded next() on the caller\'s iterable')
     # D4: same-path rejection before any effect
-    gates = [n for n in own_nodes(asarray.node) if isinstance(n, ast.If) and always_raises(n.body) and
-             'array.path' in norm(n.test) and 'path' in names_in(n.test) and '==' in norm(n.test)]
+    # path conditions: with the source an Array whose path equals the target path, no effect is reachable and
+    # ValueError is raised (any layout of the test: merged, nested, either polarity)
+    from ..pathcond import outcome_under
+    pth, src_ = asarray.params[0], asarray.params[1]
+    env = {f'isinstance({src_}, Array)': True, f'{pth} == {src_}.path': True, f'{src_}.path == {pth}': True,
+           f'{pth} != {src_}.path': False, f'{src_}.path != {pth}': False,
+           f'{pth}.samefile({src_}.path)': True, f'{src_}.path.samefile({pth})': True}
+    ft = _trunc.folder(env, asarray)
     amuts = [n for n, cal in ctx.E.callees(asarray) if isinstance(n, ast.Call) and any(e.kind in MUTATING for e in ctx.E.may(cal))]
     amuts += [e.node for e in ctx.E.primitives(asarray) if e.kind in MUTATING]
-    ok = bool(gates) and all(must_precede(asarray, m, gates) for m in amuts)
+    may = reach_under(asarray, ft)
+    ga = cfg_of(asarray)
+    normal, raised = outcome_under(asarray, ft)
+    ok = normal is False and 'ValueError' in raised and not any(ga.node_for(m) in may for m in amuts)
+    gates = []
     ctx.decide(ok, 'R-DOM', 'D4', asarray, gates[0] if gates else None, 'same-path-rejected',
                'asarray rejects path == source path (ValueError) before any effect', detail='a source could be overwritten by its own copy')
     d6_archive_copy(ctx)           # D5
